@@ -67,6 +67,10 @@ func (jenny RawTypes) generateSchema(context languages.Context, schema *ast.Sche
 	equalityMethodsGenerator := newEqualityMethods(jenny.tmpl, jenny.apiRefCollector)
 	validationMethodsGenerator := newValidationMethods(jenny.tmpl, jenny.packageMapper, jenny.apiRefCollector)
 
+	if err := jenny.checkConstructorNames(context, schema); err != nil {
+		return nil, err
+	}
+
 	schema.Objects.Iterate(func(_ string, object ast.Object) {
 		innerErr := jenny.formatObject(&buffer, schema, object)
 		if innerErr != nil {
@@ -176,6 +180,29 @@ func (jenny RawTypes) formatObject(buffer *strings.Builder, schema *ast.Schema, 
 			}); err != nil {
 				return err
 			}
+		}
+	}
+
+	return nil
+}
+
+// checkConstructorNames reports the structs whose constructor has the name of
+// another object of the package (`Pet` and `NewPet`): types and functions share
+// one namespace in Go.
+func (jenny RawTypes) checkConstructorNames(context languages.Context, schema *ast.Schema) error {
+	names := make(map[string]string, schema.Objects.Len())
+	for _, object := range schema.Objects.Values() {
+		names[formatObjectName(object.Name)] = object.Name
+	}
+
+	for _, object := range schema.Objects.Values() {
+		if !context.ResolveRefs(object.Type).IsStruct() {
+			continue
+		}
+
+		constructorName := "New" + formatFunctionName(object.Name)
+		if other, taken := names[constructorName]; taken {
+			return fmt.Errorf("%[1]s.%[2]s: the constructor of %[2]s, %[3]s, has the name of the object %[1]s.%[4]s: one of them has to be renamed", schema.Package, object.Name, constructorName, other)
 		}
 	}
 
